@@ -116,6 +116,13 @@ check("C18", "exploration", "property-based testing (Hypothesis): generated vers
       "Trusted: vp/reffind.py reference selection. Demo plugin's key name 'version'. No-sibling successor only weakly asserted.",
       "DESIGN.md section 2, C18")
 
+check("C17", "fault_enumeration", "fault injection: Hypothesis-generated write scenarios, exhaustive enumeration of every crash point of each (file-system interposer), plus enumerated sidecar corruptions",
+      "For each generated scenario a recording run lists every file-system effect of the write (cross-checked against a tree diff); the operation is re-run from a restored snapshot once per crash point "
+      "(before every effect, and at every byte boundary inside every write), process death being simulated by a BaseException; after each crash a fresh Getter must read exactly the old or the new record, "
+      "other data and searches must be unchanged and the next set must succeed. Sidecars are corrupted by truncation at every byte, garbage, a directory and an interposed PermissionError.",
+      "Exhaustive over the crash points of each explored scenario; scenarios themselves are sampled. Assumes the file system applies the recorded effects in order (no write-back reordering).",
+      "DESIGN.md section 2, C17")
+
 NOT_APPLICABLE = {
 }
 
